@@ -54,13 +54,15 @@ def run_case(ctx, name, params):
             script.append(k > nreq // 2)
         else:
             script.append(r.random() < 0.5)
+    old_script = list(script)        # what the first hook goes on doing, should anybody still ask it
     hook_calls = [0]
+    hook_swapped = [False]
     hook_values = {}
 
     def predict_hook(individual):
         k = hook_calls[0]
         hook_calls[0] += 1
-        if k < len(script) and script[k]:
+        if k < len(old_script) and old_script[k]:
             v = [float(100 + k)]
             hook_values[k] = v
             return v
@@ -152,6 +154,18 @@ def run_case(ctx, name, params):
             ctx.count("requests_with_an_already_evaluated_design_object")
         if sib is not None and r.random() < 0.5:
             sib.evaluate(Individual([r.uniform(-1, 1) for _ in range(n)]))
+        if hook_mode != "absent" and not hook_swapped[0] and k > 0 and r.random() < 0.04:
+            # the user replaces the predict hook during the run by one that declines everything: the decisions of the hook that is
+            # installed NOW count
+            def declining_hook(individual):
+                hook_calls[0] += 1
+                return None
+            p.predict = declining_hook
+            for j_ in range(hook_calls[0], len(script)):
+                script[j_] = False
+            script.extend([False] * (nreq + 5))
+            hook_swapped[0] = True
+            ctx.count("histories_with_the_predict_hook_replaced")
         hk_before = hook_calls[0]
         if kind == "scikit_stub":
             s.regressor.next_score = r.choice([1.0, 0.9, 0.2, -3.0, 0.5])     # how well the regressor fits is not the wrapper's business
